@@ -45,7 +45,7 @@ CHECKS = {
             "DESIGN.md §5 C11"),
     "C12": ("busmc", "model_checking",
             "complete enumeration of the handshake and version-pair matrices plus explicit-state search of the gated kinds, on the real Acceptor / Broker / Connection, lock-step against refbus",
-            "A: every Connect (legacy) version in {0,13,14,15,19,20,21,2^32-1} and Connect2 major x minor in {0,1,2,2^32-1} x {0,13..21,255,2^32-1}, and non-connect first messages, against the real Acceptor (reply, accept result, negotiated version in the snapshot). B: for each negotiated version 1.14..1.20 every message kind introduced later, sent in a state where it would otherwise be served (closed below the gate, served per refbus at or above), and the never-gated kinds. C: a monitor active in every busmc run: no message kind newer than the recipient's version, no 1.20 container encoding in a payload delivered to a pre-1.20 peer. D: all (sender, receiver) version pairs (5x5 quick, 7x7 thorough) x call arguments / reply ok+err / event / channel item x 8 payload values with nested maps, sets, structs, bytes in the sender's newest epoch: the payload received must decode to the same value.",
+            "Client half (taskmc, runs first): the real ClientBuilder (connect and connect1) against a scripted broker end answering with every reply of {ConnectReply2 Ok(minor) for 12 minors in and around 1.14..1.20, Rejected, IncompatibleVersion, the three legacy replies, an unrelated message, disconnect} - the client must send Connect2 1.20 / Connect 14, come up at exactly the offered version iff it lies in 1.14..1.20 (an offer below 1.14 is not judged), and report Rejected / IncompatibleVersion / UnexpectedMessageReceived / Transport otherwise; and against the real broker with the requested minor rewritten on the wire to {0,13..21,255,2^32-1}: connects iff >= 14, negotiates min(requested, 20), a round trip works. Broker half (busmc): A: every Connect (legacy) version in {0,13,14,15,19,20,21,2^32-1} and Connect2 major x minor in {0,1,2,2^32-1} x {0,13..21,255,2^32-1}, and non-connect first messages, against the real Acceptor (reply, accept result, negotiated version in the snapshot). B: for each negotiated version 1.14..1.20 every message kind introduced later, sent in a state where it would otherwise be served (closed below the gate, served per refbus at or above), and the never-gated kinds. C: a monitor active in every busmc run: no message kind newer than the recipient's version, no 1.20 container encoding in a payload delivered to a pre-1.20 peer. D: all (sender, receiver) version pairs (5x5 quick, 7x7 thorough) x call arguments / reply ok+err / event / channel item x 8 payload values with nested maps, sets, structs, bytes in the sender's newest epoch: the payload received must decode to the same value.",
             "the client side of the handshake (ClientBuilder) is exercised by the client-level checks; payloads outside the corpus not reached",
             "DESIGN.md §5 C12"),
     "C10": ("busmc", "model_checking",
